@@ -71,6 +71,10 @@ static cregex_node_t* parse_char_class(regex_parse_context *context) {
       });
       case '\\':
         ch = *context->sp++;
+        if (ch == '\0') {
+          /* premature end of character class */
+          return NULL;
+        }
       /* fall-through */
       default:
 CHARACTER:
@@ -134,6 +138,10 @@ static cregex_node_t* parse_context(regex_parse_context *context, int depth) {
       /* Characters */
       case '\\':
         ch = *context->sp++;
+        if (ch == '\0') {
+          /* nothing to escape: premature end of pattern */
+          return NULL;
+        }
       /* fall-through */
       default:
 CHARACTER:
